@@ -39,6 +39,19 @@ UBase == <<
   MapV(<<PairV(StrV("a", 0), NumV(1, 1, "")), PairV(StrV("b", 0), NumV(2, 1, ""))>>),
   MapV(<<PairV(StrV("b", 0), NumV(2, 1, "")), PairV(StrV("a", 0), NumV(1, 1, ""))>>),
   MapV(<<PairV(StrV("a", 0), NumV(2, 1, ""))>>),
+  (* maps of equal size that differ in keys, with null values: a missing key is not a null value *)
+  MapV(<<PairV(StrV("x", 0), NullV), PairV(StrV("k", 0), NumV(1, 1, ""))>>),
+  MapV(<<PairV(StrV("y", 0), NumV(2, 1, "")), PairV(StrV("k", 0), NumV(1, 1, ""))>>),
+  MapV(<<PairV(StrV("k", 0), NumV(1, 1, "")), PairV(StrV("x", 0), NullV)>>),
+  V("map", "merge", 0, 1, 0, 0, "", <<PairV(StrV("k", 0), NumV(1, 1, "")), PairV(StrV("z", 0), NullV)>>),
+  MapV(<<PairV(StrV("k", 0), NumV(1, 1, "")), PairV(StrV("w", 0), NumV(3, 1, ""))>>),
+  MapV(<<PairV(StrV("a", 0), NullV)>>), MapV(<<PairV(StrV("b", 0), NullV)>>),
+  (* nested maps, maps with list keys, lists containing null *)
+  MapV(<<PairV(StrV("a", 0), MapV(<<PairV(StrV("b", 0), NumV(1, 1, ""))>>))>>),
+  MapV(<<PairV(StrV("a", 0), MapV(<<PairV(StrV("b", 0), NullV)>>))>>),
+  MapV(<<PairV(StrV("a", 0), MapV(<<PairV(StrV("c", 0), NumV(1, 1, ""))>>))>>),
+  MapV(<<PairV(One2, NumV(3, 1, ""))>>), MapV(<<PairV(ListV("comma", 0, <<NumV(1, 1, ""), NumV(2, 1, "")>>), NumV(3, 1, ""))>>),
+  ListV("space", 0, <<NumV(1, 1, ""), NullV>>), ListV("space", 0, <<NullV, NumV(1, 1, "")>>), ListV("space", 0, <<NumV(1, 1, ""), BoolV(0)>>),
   (* booleans, null, functions *)
   BoolV(1), BoolV(0), NullV, FnV("red"), FnV("blue")
 >>
@@ -54,14 +67,18 @@ Spec == Init /\ [][Next]_vars
 
 Done == phase = "done"
 
-WellFormedU == (phase = "picka") => \A i \in 1..N : U[i].t = "num" => StepOK(U[i])
+(* state-independent checks are evaluated in one successor state: successor states are evaluated by *)
+(* worker threads, which get the large stack (-Xss) the digit-sequence recursion needs; the initial   *)
+(* state is evaluated on the main thread                                                              *)
+Once == phase = "pickb" /\ ia = 1
+WellFormedU == Once => \A i \in 1..N : U[i].t = "num" => StepOK(U[i])
 Laws == Done => (LawsReference(U[ia], U[ib]) /\ LawsReference(U[ib], U[ia]))
 (* equality is transitive wherever the reference is fixed (checked once) *)
 EqM == [i \in 1..N, k \in 1..N |-> Eq(U[i], U[k], {})]      \* constant: evaluated once
-Transitive == (phase = "picka") =>
+Transitive == Once =>
    \A i \in 1..N, k \in 1..N, m \in 1..N : (EqM[i, k] = 1 /\ EqM[k, m] = 1) => EqM[i, m] # 0
 (* the deviation breaks the symmetry law in the model: it is a real deviation *)
-DevBreaksSymmetry == (phase = "picka") =>
+DevBreaksSymmetry == Once =>
    \E i \in 1..N, k \in 1..N : U[i].t = "num" /\ U[k].t = "num" /\ Eq(U[i], U[k], {"numeq_relative_to_lhs"}) # Eq(U[k], U[i], {"numeq_relative_to_lhs"})
 
 Emit == Done => PrintT(<<"VEC", ToJson([a |-> U[ia], b |-> U[ib], ia |-> ia, ib |-> ib,
